@@ -145,6 +145,8 @@ structure TiProg where
   resegment : Fn
   isAlnum : Fn
   widthToCursor : Fn
+  string : Fn
+  cursorPosition : Fn
 
 abbrev tiKeys : List String := ["m.content", "m.cursor", "m.offset", "m.paste"]
 
@@ -205,6 +207,19 @@ def tiWidthToCursorI (P : TiProg) (charW : List A → Int) (chars : List (List A
   let cx : Ctx A := { cl := fun _ => [], isAlnum := fun _ => false, call := fun _ _ _ => none, charW := charW }
   match runFn cx P.widthToCursor [] [.chars chars, .num cursor, .num offset] with
   | some (_, .num w) => some w
+  | _ => none
+
+open VaxisModel.Model.TextInputCl (TIC) in
+/-- `String()` and `CursorPosition()` — what the harness observes of the widget — through the translated bodies. -/
+def tiStringI (P : TiProg) (m : TIC A) : Option (List A) :=
+  match runFn (tiCx0 (fun _ => []) (fun _ => false)) P.string (envOfTI m) [] with
+  | some (_, .str s) => some s
+  | _ => none
+
+open VaxisModel.Model.TextInputCl (TIC) in
+def tiCursorPositionI (P : TiProg) (m : TIC A) : Option Int :=
+  match runFn (tiCx0 (fun _ => []) (fun _ => false)) P.cursorPosition (envOfTI m) [] with
+  | some (_, .num c) => some c
   | _ => none
 
 end VaxisModel.Model.EdRun
